@@ -580,6 +580,11 @@ func (c14) Gen(seed uint64, tier string) *Scenario {
 		// DISTINCT; all runs that are compared with each other use the same flags)
 		sc.Procs[0].Flags = mergeFlags(sc.Procs[0].Flags, map[string]string{"STRICT_EQUAL": "true"})
 	}
+	if rs := Sub(seed, "c14-strict-order"); m.Kind == "sibling" && strings.Contains(m.Stmts[0].Src, "ORDER BY s DESC") && rs.Bool(0.6) {
+		// (the plain query against the same query with a window ordered by the string column: under strict
+		// equality 'DOG' / 'dog' / 'dog ' are different sort keys whose normalised forms are equal - defect F24)
+		sc.Procs[0].Flags = mergeFlags(sc.Procs[0].Flags, map[string]string{"STRICT_EQUAL": "true"})
+	}
 	renderC14(sc, m)
 	if big {
 		sc.Knobs = Knobs{RowStride: 64, MinPerCore: r.Pick(0, 20)}
